@@ -4,7 +4,7 @@ import Percival.Model.AfStep
 /-!
 `pmodel af`: line protocol of harness/h_allocfail.c — pointer heap, timer queue and event registration under an
 allocation-failure schedule.  Thin by construction: `parseOp` turns a line into a typed `Spec.AfMon.Op`,
-`Model.AfStep.stepOp` does everything else, `render` prints its typed output.
+`Model.AfStep.stepOp` does everything else, `render` prints its typed output (`l1Toks` joined by spaces, ` | `, `l2Str`).
 
 Ops: `failat k` / `failfrom k` / `failoff`; `h_init`, `h_add id key`, `h_min`, `h_delmin`, `h_free`;
 `reg_imm id prio`, `cancel_imm id`, `reg_tm id usec`, `cancel_tm id`, `reg_net id fd w`, `cancel_net fd w`,
@@ -14,7 +14,7 @@ and allocation / the whole registration state, pool fill, live library blocks, r
 namespace Percival.Driver.Af
 open Percival.Driver Percival.Model Percival.Model.EvReg Percival.Model.AfStep
 open Percival.Spec.AfMon (Op)
-open Percival.Driver.Ds (showL2c showWord)
+open Percival.Driver.Ds (showL2c showWord kv)
 
 /-! ## text → typed op (shared with `pmodel afmon`) -/
 
@@ -60,20 +60,34 @@ def showEvL2 (x : EvL2) : String :=
 def showRes : NetRes → String
   | .ok => "ok" | .fail => "fail" | .exists_ => "exists" | .noent => "noent" | .broken => "broken"
 
-def render : Out → String
-  | .word w => showWord w
-  | .end_ live n => s!"end live={live} leaked=0 | n={n}"
-  | .heap ok rfn id l2 =>
-    let idS := match id with
-      | none => ""
-      | some none => " id=none"
-      | some (some e) => s!" id={e}"
-    s!"{if ok then "ok" else "fail"} rf={rfn}{idS} | {showHL2 l2}"
-  | .ev st rfn ran l2 =>
-    let ranS := match ran with
-      | none => ""
-      | some ids => s!" ran={showList (ids.map toString)}"
-    s!"{showRes st} rf={rfn}{ranS} | {showEvL2 l2}"
+/-- the `id=` token of a heap line: absent, `id=none`, `id=<element>` -/
+def idToks : Option (Option Nat) → List String
+  | none => []
+  | some none => [kv "id" "none"]
+  | some (some e) => [kv "id" (toString e)]
+
+/-- the `ran=` token of an event line: the callbacks `events_run` made, in order (`-`: none) -/
+def ranToks : Option (List Nat) → List String
+  | none => []
+  | some ids => [kv "ran" (showList (ids.map toString))]
+
+/-- the L1 part of the printed line as tokens (`pmodel afmon` reads exactly these: `Proofs/AfAns.lean`) -/
+def l1Toks : Out → List String
+  | .word w => [showWord w]
+  | .end_ live _ => ["end", kv "live" (toString live), kv "leaked" "0"]
+  | .heap ok rfn id _ => [if ok then "ok" else "fail", kv "rf" (toString rfn)] ++ idToks id
+  | .ev st rfn ran _ => [showRes st, kv "rf" (toString rfn)] ++ ranToks ran
+
+/-- the L2 part (after ` | `), if the line has one -/
+def l2Str : Out → Option String
+  | .word _ => none
+  | .end_ _ n => some s!"n={n}"
+  | .heap _ _ _ l2 => some (showHL2 l2)
+  | .ev _ _ _ l2 => some (showEvL2 l2)
+
+/-- the printed line: the L1 tokens joined by single spaces, then ` | ` and the L2 part -/
+def render (o : Out) : String :=
+  " ".intercalate (l1Toks o) ++ (match l2Str o with | some s => " | " ++ s | none => "")
 
 def step (s : S) (toks : List String) : S × String :=
   match parseOp toks with
